@@ -669,6 +669,42 @@ fn push_doc<'a>(bt: &mut Batch<'a>, rep: &mut Report, o: &Opts, md: &str, srcnam
         Some(r) => r,
         None => return,
     };
+    // completion: the same document followed by headings that spell the anchors just issued (an anchor
+    // made up outside the anchorizer's bookkeeping collides with the heading that spells it)
+    if srcname != "completed-with-issued-anchors" {
+        if let Some(prefix) = o.header_ids.as_deref() {
+            let pat = format!(" id=\"{}", prefix);
+            let html = String::from_utf8_lossy(&r.html).into_owned();
+            let mut ids: Vec<String> = vec![];
+            for (k, _) in html.match_indices("class=\"anchor\"") {
+                let mut end = html.len().min(k + 400);
+                while !html.is_char_boundary(end) {
+                    end -= 1;
+                }
+                let tail = &html[k..end];
+                if let Some(a) = tail.find(&pat) {
+                    let rest = &tail[a + pat.len()..];
+                    if let Some(e) = rest.find('"') {
+                        let id = &rest[..e];
+                        if !id.is_empty() && !id.contains('&') && !ids.iter().any(|x| x == id) {
+                            ids.push(id.to_string());
+                        }
+                    }
+                }
+            }
+            if !ids.is_empty() && ids.len() <= 8 {
+                let mut md2 = md.to_string();
+                if !md2.ends_with('\n') {
+                    md2.push('\n');
+                }
+                for id in &ids {
+                    md2.push_str(&format!("\n# {}\n", id.replace('-', " ")));
+                }
+                rep.count("completed-with-issued-anchors");
+                push_doc(bt, rep, o, &md2, "completed-with-issued-anchors");
+            }
+        }
+    }
     let c = tap.classes.clone();
     rep.add("footnote-definitions", c.n_defs as u64);
     rep.add("footnote-references", c.n_refs as u64);
